@@ -161,13 +161,14 @@ def isEnumConst (a : Ast) (l : String) : Bool :=
   | _ => false
 
 /-- what `Supported` leaves to rustc about the labels of integer-switched unions: the value fits the discriminant's type, and an
-    enum member labels such a union only when the switch is written with the primitive itself (`E::V as u32` is a cast to a
-    primitive; a cast to a typedef'd newtype does not compile) -/
+    enum member is cast to the primitive the discriminant is decoded as (`E::V as u32`; after repair e0a4211 also when the
+    switch type is a typedef of it — before, the cast named the typedef and did not compile: the hypothesis this proof
+    forced was the defect) -/
 def labelsTypedU (a : Ast) (u : Union) : Bool :=
   match discKind a u.switch.varType with
   | .u32 => (allLabels u).all fun l =>
-      (match labelValue a l with | some v => decide (v < 2^32) | none => false) && (!isEnumConst a l || decide (u.switch.varType = .u32))
-  | .i32 => (allLabels u).all fun l => (!isEnumConst a l || decide (u.switch.varType = .i32))
+      (match labelValue a l with | some v => decide (v < 2^32) | none => false) && (!isEnumConst a l || (switchCastType a u.switch.varType).asSafeString == "u32")
+  | .i32 => (allLabels u).all fun l => (!isEnumConst a l || (switchCastType a u.switch.varType).asSafeString == "i32")
   | _ => true
 
 def labelsTyped (a : Ast) : Bool :=
